@@ -277,6 +277,7 @@ class C10(Check):
     harness_sources = ['harness/future.cpp']
     harness_link_flags = ['-Wl,--wrap=pthread_cond_wait,--wrap=pthread_cond_broadcast']
     per_case_timeout = 20
+    retry_timeouts = False   # real threads: a hang observed once is evidence and may not repeat
     # NOTE (harness agent): the texts below describe the tie between model and code only; the proof
     # part (theorems, what is modelled/proved) is to be completed by the owner of coq/Future.
     level_text = ('Theorems in Coq, for every schedule (list of thread moves) and every well-formed configuration (queue capacity, '
